@@ -314,7 +314,7 @@ def _ca_carries_a_clean_key_description(fault):
     def f(s, r):
         fault(s, r)
         s.n_inter = max(1, s.n_inter)
-        where = r.choice(["intermediate", "intermediate", "appended-root"])
+        where = r.choice(["intermediate", "intermediate", "intermediate"])
         def x5c(pki, leaf):
             kd = regsim.key_description(pki.ceremony["cdh"])
             ext = (x509.UnrecognizedExtension(x509.ObjectIdentifier("1.3.6.1.4.1.11129.2.1.17"), kd), False)
@@ -324,7 +324,7 @@ def _ca_carries_a_clean_key_description(fault):
                 top = pki.inters[0]
                 issuer_key = pki.root_key
                 re_issued = regsim.make_cert(top.subject, top.issuer, top.public_key(), issuer_key, ca=True, exts=[ext])
-                out += [regsim.der(c) for c in inters[:-1]] + [regsim.der(re_issued)]
+                out += [regsim.der(c) for c in inters[:-1]] + [regsim.der(re_issued), regsim.der(pki.root)]          # (android-key statements end with the root certificate)
             else:
                 re_root = regsim.make_cert(pki.root.subject, pki.root.subject, pki.root_key.public_key(), pki.root_key, ca=True, exts=[ext], serial=4243)
                 out += [regsim.der(c) for c in inters] + [regsim.der(re_root)]
@@ -449,7 +449,7 @@ for _n in ("rp-id-other", "up-clear-required", "uv-clear-required", "alg-not-all
 # entries that make an inner structure MALFORMED (not a well-formed response rejected for a semantic reason): C19 does not demand a
 # library exception for them (observations O3/O4 in DESIGN section 4): an attested Name too short to carry its algorithm id makes the
 # TPM structure parser raise KeyError; a credential key that is no point of its declared curve makes `cryptography` raise ValueError
-MALFORMED_STRUCTURE = {"attested-name-empty", "credential-key-other-curve-same-xy", "client-data-malformed-affix-not-signed", "client-data-is-a-json-string-wrapping-the-object"}      # (the last: client data that is no UTF-8 / no JSON text - observation O2)
+MALFORMED_STRUCTURE = {"attested-name-empty", "credential-key-other-curve-same-xy", "credential-key-coordinates-split-elsewhere", "client-data-malformed-affix-not-signed", "client-data-is-a-json-string-wrapping-the-object"}      # (the last: client data that is no UTF-8 / no JSON text - observation O2)
 # faults that only make sense for some credential key families
 NEEDS_FAMILY = {"ecc-point-mismatch": "ec", "ecc-curve-mismatch": "ec", "ecc-curve-unmappable": "ec"}
 # entries known to be accepted by the unchanged implementation (genuine defects, see DESIGN section 4)
